@@ -230,9 +230,25 @@ CLAIMED = {
    note="Trusted: Coq kernel+vm_compute; translators (templates, set-attribute scan); the TIR interpreter's sort as model of Jinja's (K-jinja); "
         "CPython's hash randomisation as the only source of set order. One defect repaired (6729cee).",
    technique="Coq order-theoretic proof (sorting a permutation) + finite static theorems over regenerated templates + writer-model proofs + metamorphic multi-process correspondence", design="7/C10"),
+ 'C01': dict(
+   text="What a theorem carries here is the template side, over the 69 templates translated from /repo on this run: no literal text of a "
+        "template contains a template marker (so a marker in an output can only come from data), and every attribute a template reads "
+        "from a marshalling object (X.<generator>.<attr>) exists on some marshalling class of that generator (classes reflected into "
+        "Gen/MarshalAttrs.v each run) - with exactly one listed exception, a provably dead branch; a new unresolvable read breaks the "
+        "theorem. Whether rendered text is well-formed C++/Java is decided by compilers: J-compile runs random programs (two naming "
+        "configurations) and one program per target-language keyword through parse and generation of all targets with the "
+        "PYDJINNI_VERIF hook on (undefined values created by failed look-ups / written to output are recorded); generate() must end "
+        "normally or in an ApplicationException (reserved words give InvalidIdentifierException); every generated C++ and JNI header "
+        "and source is compiled on its own with g++ -std=c++20 -fsyntax-only against the shipped support library and jni.h, all Java "
+        "together with javac; every output of every target (Objective-C, C++/CLI, YAML included) is scanned for unrendered markers.",
+   note="Level: the theorems are finite facts about the templates; compilation is judged, not proved (partial). Trusted: g++/javac, the "
+        "translators, the hook. No Objective-C / C++/CLI compiler in the sandbox. Six defects repaired; known findings C01-K1..K5 "
+        "(deriving on types without the operator, JNI header including itself under default naming, unhashable set/map keys, async "
+        "Java proxies with by-reference results, parameter names clashing with template locals), C08-K1 excluded by construction.",
+   technique="finite Coq theorems over the regenerated templates and reflected marshalling classes + compile-and-scan judge (g++, javac) with an undefined-value hook", design="7/C01"),
 }
 PENDING_REASON = "check not built yet in this session (work in progress; see DESIGN.md section 10 build order)"
-HOOK_COMMITS = []
+HOOK_COMMITS = ['6805ba2']
 def main():
     checks = []
     for pid, c in sorted(CLAIMED.items()):
